@@ -359,6 +359,13 @@ func (i *PostingsIterator) loadChunk(chunk int) error {
 	if i.includeLocs {
 		err := i.locReader.loadChunk(chunk)
 		if err != nil {
+			// do not leave a half loaded chunk behind: the freq/norm stream of
+			// this chunk is in place but the location stream is not, and a
+			// later call would read locations through a reader that was never
+			// set up. Forget the freq/norm chunk so that it is loaded again.
+			if i.includeFreqNorm {
+				i.freqNormReader.curChunkBytes = i.freqNormReader.curChunkBytes[:0]
+			}
 			return err
 		}
 	}
